@@ -395,7 +395,7 @@ def parse_strace(path):
     """-> list of (syscall, [args], ret) in completion order"""
     pending, out = {}, []
     for ln in open(path, errors="replace"):
-        m = re.match(r"(\d+) (.*)$", ln.rstrip("\n"))
+        m = re.match(r"(\d+)\s+(.*)$", ln.rstrip("\n"))
         if not m:
             continue
         pid, rest = m.group(1), m.group(2)
@@ -775,7 +775,7 @@ def main(tier, seed, replay=None):
     if replay:
         scens = [json.load(open(replay))["scenario"]]
     else:
-        scens = load_corpus() + [scen_merge_shadow(), scen_tags(), scen_mark_text()]
+        scens = load_corpus() + [scen_tags()]      # corpus/C12: merge-shadow, mark-text
         nrand = 8 if tier == "quick" else 150
         scens += [gen_scenario(rng, k) for k in range(nrand)]
     cuts = 2 if tier == "quick" else 12
@@ -793,11 +793,13 @@ def main(tier, seed, replay=None):
         all_states += states
     # the same scenarios (a few of them in the quick tier) under a system call trace: one crash state
     # after every file operation and inside writes, as the implementation really performs them
-    tscens = scens if (replay or tier != "quick") else scens[:4]
+    tscens = scens if (replay or tier != "quick") else scens[:4]       # corpus + tags + first random
     for (scen, (base, evs, note)) in zip(tscens, run_traced(tscens)):
         if note:
             notes.append("%s: %s" % (scen["name"], note))
         metas, states = trace_states(base, evs, rng, 110 if tier == "quick" else 1500)
+        if not states and not note:
+            notes.append("%s: the system call trace yielded no file operation (strace output not understood)" % scen["name"])
         per.append((scen, base, metas, states))
         all_states += states
     recs, rnote = recover_all(all_states, "all")
